@@ -1,6 +1,5 @@
-use crate::algorithm::{base64_hash, HashAlgorithm};
+use crate::algorithm::{base64_hash, generate_salt, HashAlgorithm};
 use crate::Error;
-use rand::{rngs::StdRng, Rng, SeedableRng};
 
 #[derive(Debug, Clone)]
 pub struct Decoy {
@@ -19,11 +18,8 @@ impl Decoy {
     }
 
     pub fn build(self) -> Result<Decoy, Error> {
-        let seed: [u8; 32] = rand::random();
-        let mut rng = StdRng::from_seed(seed);
-        let random_number: u32 = rng.gen();
-
-        let digest = base64_hash(self.algorithm, &random_number.to_string());
+        // as unguessable as the digest of a disclosure with a fresh salt
+        let digest = base64_hash(self.algorithm, &generate_salt(32));
 
         Ok(Decoy {
             digest,
